@@ -13,7 +13,7 @@ func TestC18(t *testing.T) {
 	st := vx.NewStats("C18", "model", "one real node with 1-3 scripted peers; 1-20 deliveries of advertisements / withdrawals for 4 (node, service) keys with timestamps from an ordered set of 8 "+
 		"(even = advertisement, odd = withdrawal, so the two never share a timestamp), any order, any link, duplicates; model = greatest timestamp seen per key; oracle after every delivery: the node lists the "+
 		"key iff that message is an advertisement, with its time, type and tags; newer messages are passed on; non-trivial = an older advertisement follows a withdrawal or a newer advertisement, or an older "+
-		"withdrawal follows a newer advertisement; distinct by canonical JSON")
+		"withdrawal follows a newer advertisement, or the node's own older advertisement is delivered to it by a neighbour after it closed the service (one case in four); distinct by canonical JSON")
 	defer st.Flush()
 	r := &vx.Runner{Name: "C18", Timeout: 120 * time.Second, Recycle: 200}
 	defer r.Close()
@@ -23,13 +23,16 @@ func TestC18(t *testing.T) {
 		for i := 0; i < n; i++ {
 			s.Deliveries = append(s.Deliveries, C18Delivery{Link: rapid.IntRange(0, 2).Draw(t, "link"), Key: rapid.SampledFrom([]int{0, 0, 0, 1, 2, 3}).Draw(t, "key"), T: rapid.IntRange(0, 7).Draw(t, "t")})
 		}
+		if rapid.IntRange(0, 3).Draw(t, "ownecho") == 0 {
+			s.OwnEcho = rapid.IntRange(1, 2).Draw(t, "ownechon")
+		}
 		st.Judge(t, s, r.Run(s))
 	})
 }
 
 func TestC18Mesh(t *testing.T) {
 	st := vx.NewStats("C18", "mesh", "real in-process meshes of 2-5 nodes (spanning tree + extra edges = cycles, ordered links with drawn delays), 0-2 nodes joining late; 1-12 events "+
-		"{open advertised datagram/stream listener with tags, close one, close one while re-opening the same service concurrently, join} at drawn gaps; oracle: within 40 ad periods + 8 s every node lists exactly the open advertised services of all nodes "+
+		"{open advertised datagram / stream / TLS-stream listener with tags, close one, close one while re-opening the same service concurrently, open 24-48 services on one node and close them across one advertisement period, join} at drawn gaps; oracle: within 40 ad periods + 8 s every node lists exactly the open advertised services of all nodes "+
 		"with type and tags, and still does three periods later; non-trivial = >= 1 close and a late joiner; distinct by canonical JSON")
 	defer st.Flush()
 	r := &vx.Runner{Name: "C18.mesh", Timeout: 150 * time.Second, Recycle: 30}
@@ -43,8 +46,8 @@ func TestC18Mesh(t *testing.T) {
 		s.Late = rapid.SliceOfN(rapid.IntRange(0, n-1), 0, 2).Draw(t, "late")
 		ne := rapid.IntRange(1, 12).Draw(t, "nev")
 		for i := 0; i < ne; i++ {
-			s.Events = append(s.Events, C18Event{K: rapid.SampledFrom([]string{"open", "open", "open", "close", "close", "join", "reopen", "reopen"}).Draw(t, "k"),
-				Node: rapid.IntRange(0, n-1).Draw(t, "node"), Svc: rapid.IntRange(0, 2).Draw(t, "svc"), Kind: rapid.SampledFrom([]int{0, 0, 1}).Draw(t, "kind"),
+			s.Events = append(s.Events, C18Event{K: rapid.SampledFrom([]string{"open", "open", "open", "open", "close", "close", "join", "reopen", "reopen", "storm"}).Draw(t, "k"),
+				Node: rapid.IntRange(0, n-1).Draw(t, "node"), Svc: rapid.IntRange(0, 2).Draw(t, "svc"), Kind: rapid.SampledFrom([]int{0, 0, 0, 1, 3}).Draw(t, "kind"),
 				Tags: rapid.IntRange(0, 3).Draw(t, "tags"), GapMs: rapid.SampledFrom([]int{0, 0, 20, 100, 350}).Draw(t, "gap")})
 		}
 		st.Judge(t, s, r.Run(s))
